@@ -591,6 +591,14 @@ func queuePrivate(c *Check, t *Tracker) {
 							}
 							if !okUse && what == "" {
 								what = "the queue is passed to " + calleeName(y.Common())
+								// a repository function that only reads its parameter
+								if sc := staticCallee(y.Common()); sc != nil && InRepo(sc) && sc.Blocks != nil {
+									for ai, av := range y.Call.Args {
+										if av == ssa.Value(x) && ai < len(sc.Params) && readsSliceOnly(sc.Params[ai]) {
+											okUse, what = true, "passed to "+sc.Name()+", which only reads it (len, index, range)"
+										}
+									}
+								}
 							}
 						case *ssa.Slice:
 							what = "a slice of the queue's storage is taken"
@@ -718,4 +726,41 @@ func samePath(f, s TFact) bool {
 		return true
 	}
 	return reachesInstr(fl, s.Ins) || reachesInstr(s.Ins, fl)
+}
+
+
+// readsSliceOnly: the slice parameter is used only for len/cap, indexing and
+// ranging inside its function (it is not stored, appended to, re-sliced into
+// something kept, returned or passed on).
+func readsSliceOnly(prm *ssa.Parameter) bool {
+	rr := prm.Referrers()
+	if rr == nil {
+		return true
+	}
+	for _, u := range *rr {
+		switch y := u.(type) {
+		case *ssa.IndexAddr:
+			// element loads only
+			if ir := y.Referrers(); ir != nil {
+				for _, iu := range *ir {
+					if ld, ok := iu.(*ssa.UnOp); ok && ld.Op == token.MUL {
+						continue
+					}
+					if _, ok := iu.(*ssa.DebugRef); ok {
+						continue
+					}
+					return false
+				}
+			}
+		case *ssa.Index, *ssa.Range, *ssa.DebugRef:
+		case *ssa.Call:
+			bi, ok := y.Call.Value.(*ssa.Builtin)
+			if !ok || (bi.Name() != "len" && bi.Name() != "cap") {
+				return false
+			}
+		default:
+			return false
+		}
+	}
+	return true
 }
